@@ -20,6 +20,10 @@ pub fn sleep_for_ms(ms: u64) {
 
 #[inline]
 pub fn sleep_for_ns(ns: u64) {
+    #[cfg(sentinel_verif)]
+    if verif_clock::sleep_ns(ns) {
+        return;
+    }
     std::thread::sleep(std::time::Duration::from_nanos(ns));
 }
 
@@ -54,6 +58,10 @@ pub fn format_time_nanos_curr() -> String {
 }
 
 pub fn curr_time_millis() -> u64 {
+    #[cfg(sentinel_verif)]
+    if let Some(ns) = verif_clock::now_ns() {
+        return ns / 1_000_000;
+    }
     // todo: conditional compilation, `config::use_cache_time()`
     let ticker_time = curr_time_millis_with_ticker();
     if ticker_time > 0 {
@@ -65,6 +73,10 @@ pub fn curr_time_millis() -> u64 {
 
 #[inline]
 pub fn curr_time_nanos() -> i128 {
+    #[cfg(sentinel_verif)]
+    if let Some(ns) = verif_clock::now_ns() {
+        return ns as i128;
+    }
     OffsetDateTime::now_utc().unix_timestamp_nanos()
 }
 
@@ -103,5 +115,56 @@ pub mod ticker {
     #[inline]
     pub(super) fn curr_time_millis_with_ticker() -> u64 {
         NOW_IN_MS.load(Ordering::SeqCst)
+    }
+}
+
+/// Verification hook (only with `--cfg sentinel_verif`): a virtual clock in nanoseconds.
+/// When enabled, `curr_time_millis`, `curr_time_nanos` read it and `sleep_for_ns` advances it.
+#[cfg(sentinel_verif)]
+pub mod verif_clock {
+    use std::sync::atomic::{AtomicBool, AtomicU64, Ordering};
+
+    static ENABLED: AtomicBool = AtomicBool::new(false);
+    static NOW_NS: AtomicU64 = AtomicU64::new(0);
+    static SLEPT_NS: AtomicU64 = AtomicU64::new(0);
+
+    pub fn enable(ns: u64) {
+        NOW_NS.store(ns, Ordering::SeqCst);
+        ENABLED.store(true, Ordering::SeqCst);
+    }
+
+    pub fn disable() {
+        ENABLED.store(false, Ordering::SeqCst);
+    }
+
+    pub fn set_ns(ns: u64) {
+        NOW_NS.store(ns, Ordering::SeqCst);
+    }
+
+    pub fn advance_ns(ns: u64) {
+        NOW_NS.fetch_add(ns, Ordering::SeqCst);
+    }
+
+    pub fn now_ns() -> Option<u64> {
+        if ENABLED.load(Ordering::SeqCst) {
+            Some(NOW_NS.load(Ordering::SeqCst))
+        } else {
+            None
+        }
+    }
+
+    /// total nanoseconds slept virtually so far
+    pub fn slept_ns() -> u64 {
+        SLEPT_NS.load(Ordering::SeqCst)
+    }
+
+    pub(super) fn sleep_ns(ns: u64) -> bool {
+        if ENABLED.load(Ordering::SeqCst) {
+            NOW_NS.fetch_add(ns, Ordering::SeqCst);
+            SLEPT_NS.fetch_add(ns, Ordering::SeqCst);
+            true
+        } else {
+            false
+        }
     }
 }
